@@ -65,7 +65,7 @@ pub fn gen_wire(rng: &mut Rng, w: &World, foreign: &NamespaceSecret, now: u64) -
     let base = sign(&w.ns, &w.authors[au], &key, hash, len, ts);
     let sibling = sign(&w.ns, &w.authors[au], &gen_key(rng), HASH_B, 2, ts + 1);
     let mut t = base.clone();
-    let kind = match rng.below(23) {
+    let kind = match rng.below(25) {
         0..=5 => "valid",
         6 => { t.author_sig[rng.below(64) as usize] ^= 1 << rng.below(8); "flip_author_sig" }
         7 => { t.ns_sig[rng.below(64) as usize] ^= 1 << rng.below(8); "flip_ns_sig" }
@@ -124,6 +124,10 @@ pub fn gen_wire(rng: &mut Rng, w: &World, foreign: &NamespaceSecret, now: u64) -
             t = sign(&w.ns, &w.authors[au], &key, hash, len, far);
             "far_future"
         }
+        // one signature copied into the other slot (a check that skips "the same signature twice" is fooled:
+        // every writer holds the namespace key and could speak for any author)
+        23 => { t.author_sig = t.ns_sig; "author_sig_is_copy_of_ns_sig" }
+        24 => { t.ns_sig = t.author_sig; "ns_sig_is_copy_of_author_sig" }
         _ => { t.ts = 0; t = sign(&w.ns, &w.authors[au], &key, hash, len, 0); "ts_zero" }
     };
     Tamper { w: t, kind }
